@@ -259,6 +259,22 @@ theorem C01_closure_sound (db : Db) (fuel : Nat) (r : Request) (e : Setup.Env) (
   rw [hsame.record, hclean m] at hm
   cases hm
 
+/-- the "exact closure" half for every prior environment: whatever was set up before, a product that is set up after a
+successful request either was set up before in that very version, or is reachable from the requested product through
+dependency lines — nothing outside the closure is *newly* set up or switched.  Every database, flag, fuel. -/
+theorem C01_closure_sound_populated (db : Db) (fuel : Nat) (r : Request) (e : Setup.Env) (s' : St)
+    (h : runSetup db fuel r e = .ok s') :
+    ∀ m v, s'.env.rec? m = some v → e.rec? m = some v ∨ ∃ k, Within db r.name k m := by
+  intro m v hm
+  by_cases hno : ∃ k, Within db r.name k m
+  · exact Or.inr hno
+  · left
+    have hsame := setup_subjInv (r.cfg db) (fun _ n => ∃ k, Within db r.name k n) (SameFor m e)
+      (within_closedAt_unbounded (r.cfg db) r.name)
+      (sameFor_subjInv (r.cfg db) _ m (fun _ h => hno h) e) fuel true 0 false r.vro r.name r.version none (St.init e) s'
+      ⟨0, Within.root⟩ (by intro n d x h; simp [St.init, aget] at h) (SameFor.refl m e) h
+    rw [← hsame.record]; exact hm
+
 /-- the requested product is set up in the version the resolution order designates for the request (resolution run on
 an empty `alreadySetupProducts`, as the top-level call does) — provided the requested name is not reachable from itself
 (`NoSelfReach`: the weakest static form of "not requested in two versions along the traversal" for the requested
